@@ -11,7 +11,8 @@ META = {
   "OAEP encode queries: first significant modulus byte is a fixed non-zero constant (0xB7) and the last a fixed odd constant (0xC5), the rest symbolic; br_rsa_oaep_pad reads pk->n only to find its length",
   "PSS decode queries: top modulus byte is a fixed constant with the required bit length (0xD5 >> k), remaining modulus bytes symbolic (only the bit length of n is read)",
   "br_rsa_ssl_decrypt: private-key engine = stub behind the br_rsa_private function pointer returning an arbitrary block and status",
-  "public/private gates: br_iNN_modpow_opt / br_i32_modpow replaced at the link seam by an identity stand-in (src/int/iNN_modpow*.c not linked); for i15 private additionally br_i15_decode_reduce/reduce/to_monty/montymul (zero-valued stand-ins)",
+  "public/private gates: br_iNN_modpow_opt / br_i32_modpow replaced at the link seam by an identity stand-in (src/int/iNN_modpow*.c not linked); for the i15 private queries that keep the unmodified work-area alignment test (privgate-i15-p*) additionally br_i15_decode_reduce/reduce/to_monty/montymul (zero-valued stand-ins)",
+  "i15 private queries named -a0 / -a1 (gates, CRT recombination, inverse pair): alignment case of the work area fixed per query through the /repo hook BR_VERIF_RSA_I15_ALIGN (guarded by BEARSSL_ESP8266_VERIF; 1: tmp treated as 4-byte aligned, mq = tmp+1; 0: mq = tmp); both cases are run; all big-integer code except modpow is real there",
   "private gates and toy inverse pair: units compiled with the documented configuration macro BR_MAX_RSA_SIZE=64 so that the work arrays stay within CBMC's field-sensitive range; the over-long modulus/factor queries use the shipped BR_MAX_RSA_SIZE (4096)",
   "private gates: factors p, q concrete per query (toy values incl. even, p<q, p>q, stored with leading zero bytes), x and the CRT exponents symbolic; key structure consistent (n_bitlen == bitlen(p*q), checked in the harness)",
   "PKCS#1 v1.5: hash_len is the standard length of the hash named by hash_oid (20/32/48/64/28, 36 for no OID)",
@@ -21,7 +22,7 @@ META = {
   "512..4096-bit keys for the arithmetic (modpow, CRT at production sizes); agreement with OpenSSL/an independent implementation",
   "OAEP/PSS with the real hash functions and moduli longer than 40 bytes",
   "br_rsa_i62_private beyond the over-long-factor gate (uint64/uint32 type-punned work area: no query finished)",
-  "br_rsa_i15_private CRT recombination (alignment test on the work area makes all indices symbolic); CRT recombination is checked for i31/i32 only, moduli up to 16 bits (24-bit moduli: no verdict in 900 s)",
+  "CRT recombination beyond 16-bit moduli (24-bit: no verdict in 900 s); for i15 it is decided only with the alignment case fixed through the hook (both cases), not with the unmodified pointer-value test",
   "public o private == identity with real arithmetic beyond the 7-bit toy modulus 13*5 (16-bit modulus: no verdict in 10 min), and for i15/i62 at any size (i15 at n=65: no verdict in 900 s)",
   "key generation, br_rsa_*_compute_modulus/pubexp/privexp, the pkcs1_sign/vrfy, pss_sign/vrfy, oaep_encrypt/decrypt wrappers as compositions, 'default' implementation selection",
   "constant-time behaviour (C08)",
@@ -39,6 +40,9 @@ META = {
   "CAUGHT mgf1.c: counter not incremented -> oaep-pad-K16-L1 via the RFC reference",
   "CAUGHT rsa_i15_pub.c: result of br_i15_decode_mod (x < n) ignored -> pubgate-i15-NL3-XL2-EL1",
   "CAUGHT rsa_i15_priv.c: parity of p dropped from the result (return q0i & r) -> privgate-i15-p250-q241-PL1-QL1",
+  "CAUGHT rsa_i15_priv.c: br_i15_reduce(t2, s2, mp) skipped when p and q have the same announced bit length (s2 not brought into range mod p; wrong result with success status for p < q) -> privcrt-i15-a0/a1-p11-q13, -p241-q251 (exactly the equal-bit-length p < q keys; this class escaped before the i15 CRT queries existed)",
+  "CAUGHT rsa_i15_priv.c: add-back after the subtraction dropped (br_i15_sub(s1, t2, 1) only) -> all eight privcrt-i15-a1-* keys",
+  "CAUGHT rsa_i31_priv.c: same equal-bit-length reduce skip -> privcrt-i31-p11-q13 (quick), p241-q251 (thorough)",
   "CAUGHT rsa_ssl_decrypt.c: last PS byte not checked for non-zero (loop bound len-50) -> ssldec-L64-N512",
   "CAUGHT rsa_pkcs1_sig_pad.c: minimum length relaxed by one (seven FF bytes possible) -> p1pad-sha1-N360",
  ],
@@ -214,15 +218,19 @@ def queries():
         for (P, Qv, pl, ql, tier) in CRTCASES:
             qs.append(crtq(impl, units, P, Qv, pl, ql, tier, [], "", 34))
     # ---- 5c. toy-size inverse pair with the REAL arithmetic (thorough): n = 13*5, e = 5
-    for impl in (31, 32):    # i15: no verdict in 900 s (work-area alignment test makes every index symbolic)
+    for impl in (15, 31, 32):
         pre = "i%d" % impl
         units = ["src/rsa/rsa_%s_pub.c" % pre, "src/rsa/rsa_%s_priv.c" % pre, "src/codec/ccopy.c"] + ints(pre, nomodpow=False)
         if impl == 31:
             units.append("src/int/i32_div32.c")
-        for order in (0, 1):
-            qs.append(Q("rsainv-%s-n65-%s" % (pre, "pub_after_priv" if order == 0 else "priv_after_pub"), "C10_privgate.c", units=units,
-                        defs=["-DC10_IMPL=%d" % impl, "-DBR_MAX_RSA_SIZE=64", "-DC10_REAL_MODPOW=1", "-DC10_ORDER=%d" % order,
-                              "-DC10_P=13", "-DC10_Q=5", "-DC10_NBITS=7", "-DC10_IQ=8", "-DC10_E=5", "-DC10_DP=5", "-DC10_DQ=1"],
-                        unwind=34, backend="kissat", tier="thorough", timeout=900,
-                        desc="br_rsa_%s_public and br_rsa_%s_private are mutual inverses for every x < n, toy key n = 13*5, e = 5, real big-integer arithmetic incl. modpow; BR_MAX_RSA_SIZE=64" % (pre, pre)))
+        # i15 without the hook: no verdict in 900 s; with it only rsa_i15_pub.c keeps its (symbolic) alignment test
+        for al in ((0, 1) if impl == 15 else (None,)):
+            hook = [] if al is None else ["-DBR_VERIF_RSA_I15_ALIGN=%d" % al]
+            tag = "" if al is None else "-a%d" % al
+            for order in (0, 1):
+                qs.append(Q("rsainv-%s%s-n65-%s" % (pre, tag, "pub_after_priv" if order == 0 else "priv_after_pub"), "C10_privgate.c", units=units,
+                            defs=["-DC10_IMPL=%d" % impl, "-DBR_MAX_RSA_SIZE=64", "-DC10_REAL_MODPOW=1", "-DC10_ORDER=%d" % order,
+                                  "-DC10_P=13", "-DC10_Q=5", "-DC10_NBITS=7", "-DC10_IQ=8", "-DC10_E=5", "-DC10_DP=5", "-DC10_DQ=1"] + hook,
+                            unwind=34, backend="kissat", tier="thorough", timeout=900,
+                            desc="br_rsa_%s_public and br_rsa_%s_private are mutual inverses for every x < n, toy key n = 13*5, e = 5, real big-integer arithmetic incl. modpow; BR_MAX_RSA_SIZE=64%s" % (pre, pre, "" if al is None else "; private work-area alignment case %d fixed through the hook" % al)))
     return qs
